@@ -255,7 +255,13 @@ class HistoryRun(object):
     r = self._raw([["ApplyDocActions", res.raw_stored]])
     if not r.ok:
       if "redo" in self.oracles:
-        self._find("C03", "redo (ApplyDocActions of stored) rejected: " + r.error[0], r.error[1], rec)
+        if drift_mid:
+          # the undo left numbers of the other numeric type behind (drift finding); summary rows keyed by such a
+          # column were re-created by the engine, and the stored actions' own additions of those rows then collide
+          self._find("C03", DRIFT_SIG % "redo", "redo rejected: %s %s; drift after the undo at %r" % (
+            r.error[0], r.error[1][:120], drift_mid[:2]), rec)
+        else:
+          self._find("C03", "redo (ApplyDocActions of stored) rejected: " + r.error[0], r.error[1], rec)
       # restore the post state by re-applying the original user actions is not guaranteed; abandon history
       rec["abandon"] = True
       return
@@ -298,13 +304,30 @@ class HistoryRun(object):
     cause = classify_failed(rec, fault, doc) or (NUMERIC_NORMALISED_SIG if d and numeric_only(d) else None)
     if cause is None and d and modified_formula_column_only(rec, d, schema_before):
       cause = MODIFY_FORMULA_STALE_SIG
+    drift = ed.numeric_drift(before, now)
+    if cause is None and drift and not d:
+      # the rolled-back type change left numbers of the other numeric type behind (C01/C03's drift finding: the
+      # conversion back is not recorded because the encodings are equal); formulas then see alt text
+      cause = DRIFT_SIG % "failed-bundle"
     tag = (" (injected fault at %s)" % fault[1]) if fault else ""
-    if d:
-      self._find("C04", (cause or classify_diff("failed-bundle", d[0], rec) + tag), "; ".join(d[:3]), rec, extra)
-    if doc.engine_schema() != schema_before:
-      self._find("C04", cause or ("engine schema changed by a rejected bundle" + tag), rec["res"].error[0], rec, extra)
+    schema_changed = doc.engine_schema() != schema_before
     self._o_schema(rec, "after rollback")
     c = self._raw([["Calculate"]])
+    # One mechanism behind several recorded findings: the failure path of apply_user_actions rolls the DATA back
+    # but does not recalculate, so formula cells evaluated (or reset) during the failed bundle keep those values,
+    # still marked dirty, until the next bundle - whose calculation then emits the corrections.  It is recognised
+    # by its exact footprint: only cells of formula columns differ after the rollback, the schema is intact, and
+    # the next Calculate brings the document back to the state before the bundle.
+    if cause is None and c.ok and not schema_changed and (d or c.stored) and \
+        all(formula_cell(x, schema_before) for x in d) and \
+        all(a[0] in ("UpdateRecord", "BulkUpdateRecord") and
+            all(formula_col(schema_before, a[1], cid) for cid in a[3]) for a in (c.raw_stored or [])) and \
+        not ed.diff_snapshots(before, doc.snapshot()):
+      cause = NO_RECALC_AFTER_ROLLBACK_SIG
+    if d:
+      self._find("C04", (cause or classify_diff("failed-bundle", d[0], rec) + tag), "; ".join(d[:3]), rec, extra)
+    if schema_changed:
+      self._find("C04", cause or ("engine schema changed by a rejected bundle" + tag), rec["res"].error[0], rec, extra)
     if not c.ok:
       self._find("C04", cause or ("Calculate fails after a rejected bundle: " + c.error[0] + tag), c.error[1], rec, extra)
     elif c.stored:
@@ -379,6 +402,22 @@ def numeric_only(diffs):
   return True
 
 
+NO_RECALC_AFTER_ROLLBACK_SIG = ("rejected bundle: the rollback restores the data but does not recalculate; formula cells evaluated or "
+                                "reset during the failed bundle keep those values until the next bundle, whose calculation "
+                                "brings the document back to the state before (only formula cells differ, schema intact)")
+
+
+def formula_col(schema, tid, cid):
+  info = (schema or {}).get(tid, {}).get(cid)
+  return bool(info and info[1])
+
+
+def formula_cell(diff, schema):
+  import re
+  m = re.match(r"cell (\w+)\[\d+\]\.(\S+): ", diff)
+  return bool(m and formula_col(schema, m.group(1), m.group(2)))
+
+
 MODIFY_FORMULA_STALE_SIG = ("rollback after ModifyColumn of a formula column: the user action brings the column up to date "
                             "with the bundle's data before the failing step, and the cells keep those values after the "
                             "rollback until the next calculation")
@@ -422,7 +461,7 @@ def classify_failed(rec, fault, doc):
   for st in steps:
     if in_rb and st[0] == "doc" and st[3] == "raised" and pre and pre[-1][3] == "raised":
       return ("rollback aborted: the %s doc action failed after recording part of its undo, and replaying that "
-              "undo (%s) raises" % (pre[-1][1][0], st[1][0]))
+              "undo raises" % pre[-1][1][0])
     if st[0] == "rollback":
       in_rb = True
     elif st[0] == "rollback-done":
@@ -454,10 +493,18 @@ def circ_order_only(doc, diffs):
     return False
   sch = doc.engine_schema()
   one_sided = 0
+  cyc = None
   for d in diffs:
     m = re.match(r"cell (\w+)\[\d+\]\.(\S+): (.*) vs (.*)$", d)
     if not m:
       return False
+    if cyc is None:
+      cyc = lookup_cycle_columns(sch)
+    if (m.group(1), m.group(2)) in cyc:
+      # the cell is on or below a column-level cycle through a lookup index: whatever it holds (a value, a
+      # CircularRefError, another value) depends on the order / history in which the cycle was entered
+      one_sided += 1
+      continue
     if not any("lookup" in (c[2] or "") for c in sch.get(m.group(1), {}).values()):
       return False
     if (CIRC in m.group(3)) != (CIRC in m.group(4)):
@@ -467,6 +514,90 @@ def circ_order_only(doc, diffs):
     if not info or not info[1]:
       return False
   return one_sided > 0
+
+
+EMPTY_KEY_CHANGE_SIG = ("%s: lookup result computed while the looked-up table was empty is not recomputed when the key column "
+                        "is re-created by ModifyColumn (the C13 finding: no row exists to carry the invalidation)")
+
+
+def empty_table_key_change_only(doc, diffs, actions):
+  """Every difference is a formula cell whose formula looks up an EMPTY table by a column that a ModifyColumn (or
+  a type / isFormula update of its metadata record) of this bundle re-created."""
+  import re
+  sch = doc.engine_schema()
+  changed = set((ua[1], ua[2]) for ua in actions if ua[0] == "ModifyColumn" and len(ua) >= 3)
+  crecs = dict((c["id"], c) for c in doc.meta("_grist_Tables_column"))
+  tname = dict((t["id"], t["tableId"]) for t in doc.meta("_grist_Tables"))
+  for ua in actions:
+    if ua[0] in ("UpdateRecord", "BulkUpdateRecord") and ua[1] == "_grist_Tables_column":
+      for r in (ua[2] if isinstance(ua[2], list) else [ua[2]]):
+        c = crecs.get(r)
+        if c:
+          changed.add((tname.get(c["parentId"]), c["colId"]))
+  if not diffs or not changed:
+    return False
+  for d in diffs:
+    m = re.match(r"cell (\w+)\[\d+\]\.(\S+): ", d)
+    info = sch.get(m.group(1), {}).get(m.group(2)) if m else None
+    if not info or not info[1] or not info[2]:
+      return False
+    hit = False
+    for lm in re.finditer(r"(\w+)\.lookup(?:One|Records)\(([^()]*(?:\([^()]*\)[^()]*)*)\)", info[2]):
+      t2 = lm.group(1)
+      keys = re.findall(r"(?:^|,)\s*(\w+)\s*=", lm.group(2))
+      if t2 in doc.engine.tables and not list(doc.engine.tables[t2].row_ids) and any((t2, k) in changed for k in keys):
+        hit = True
+    if not hit:
+      return False
+  return True
+
+
+def lookup_cycle_columns(sch):
+  """Formula columns that lie on, or depend on, a COLUMN-LEVEL cycle that passes through a lookup index
+  (F reads T.lookupX(k=...) and T.k - or an order_by column, or an attribute read off the looked-up records -
+  depends on F again).  Static over-approximation from the formula texts; used only to attribute differences to
+  the recorded finding 'result of a lookup cycle depends on evaluation order / history'."""
+  import re
+  cols = set((t, c) for t in sch for c in sch[t])
+  edges = {}          # (t, c) -> set of (t', c') it depends on ; via_lookup marks edges made by a lookup
+  via_lookup = set()
+  for t in sch:
+    for c, info in sch[t].items():
+      f = info[2] or ""
+      if not f or not info[1]:
+        continue
+      deps = set()
+      for name in re.findall(r"(?:\$|\brec\.)(\w+)", f):
+        if (t, name) in cols:
+          deps.add((t, name))
+      for m in re.finditer(r"(\w+)\.lookup(?:One|Records)\(", f):
+        t2 = m.group(1)
+        if t2 not in sch:
+          continue
+        for name in re.findall(r"\b(\w+)\s*=", f[m.end():]) + re.findall(r"['\"]-?(\w+)['\"]", f[m.end():]) + \
+            re.findall(r"\.(\w+)", f):
+          if (t2, name) in cols:
+            deps.add((t2, name)); via_lookup.add(((t, c), (t2, name)))
+      edges[(t, c)] = deps
+  # nodes that can reach themselves through at least one lookup edge
+  def reach(src):
+    seen, todo = set(), [src]
+    while todo:
+      x = todo.pop()
+      for y in edges.get(x, ()):
+        if y not in seen:
+          seen.add(y); todo.append(y)
+    return seen
+  reachable = dict((n, reach(n)) for n in edges)
+  on_cycle = set()
+  for (a, b) in via_lookup:
+    if a in reachable.get(b, set()) or a == b:
+      on_cycle.add(a); on_cycle.add(b)
+  out = set(on_cycle)
+  for n in edges:
+    if reachable[n] & on_cycle:
+      out.add(n)
+  return out
 
 
 STALE_LOOKUP_SIG = ("%s: formula with a lookup keyed or ordered on a column that no longer exists held a stale result "
